@@ -938,6 +938,91 @@ def _is_id_of(keys, locals_):
     return any(l in locals_ and fs == ('id',) for l, fs in keys)
 
 
+def _path_with_flags(F, body, du, start, goals, removed=(), removed_edges=()):
+    """Body.shortest_path that respects a MATERIALISED verdict: `let ok = match id { Token(None) => true, Token(Some(_)) =>
+    !result.is_empty(), _ => false }; if !ok { break }`. Along a path the last whole assignment to a bool local is
+    remembered when it is a constant (copies and `!` of a remembered value too; any other assignment, or a call result,
+    forgets it), and a switch on a remembered value follows only the edge of that value. Unlike Q.shortest_path_flags the
+    local may also have computed definitions: after those both edges stay possible."""
+    from collections import deque
+    removed, goals, removed_edges = set(removed), set(goals), set(removed_edges)
+    borrowed = {st['rv']['pl']['l'] for _, _, st in body.stmts()
+                if st['k'] == 'assign' and st['rv']['k'] == 'ref' and st['rv'].get('mut') and not st['rv']['pl'].get('p')}
+
+    def const_bool(o):
+        if isinstance(o, dict) and 'c' in o and str(o['c']) in ('true', 'false', 'const true', 'const false'):
+            return str(o['c']).endswith('true')
+        return None
+
+    def after_block(b, known):
+        for st in body.blocks[b]['s']:
+            if st['k'] != 'assign':
+                continue
+            l = st['lhs']['l']
+            if st['lhs'].get('p') or l in borrowed or body.locals[l].get('ty') != 'bool':
+                known.pop(l, None)
+                continue
+            rv = st['rv']
+            v = None
+            if rv['k'] == 'use':
+                v = const_bool(rv['o'])
+                src = Q.operand_place(rv['o'])
+                if v is None and src is not None and not src.get('p'):
+                    v = known.get(src['l'])
+            elif rv['k'] == 'unop' and rv.get('op') == 'Not':
+                src = Q.operand_place(rv['o'])
+                v0 = const_bool(rv['o'])
+                if v0 is None and src is not None and not src.get('p'):
+                    v0 = known.get(src['l'])
+                v = None if v0 is None else not v0
+            if v is None:
+                known.pop(l, None)
+            else:
+                known[l] = v
+        t = body.term(b)
+        if t['k'] == 'call' and t.get('dest') is not None:
+            known.pop(t['dest']['l'], None)
+        return known
+
+    def allowed(b, known):
+        t = body.term(b)
+        if t['k'] != 'switch' or t.get('dty') != 'bool':
+            return None
+        pl = Q.operand_place(t['d'])
+        if pl is None or pl.get('p') or pl['l'] not in known:
+            return None
+        v = 1 if known[pl['l']] else 0
+        for value, tgt in t['ts']:
+            if value == v:
+                return {tgt}
+        return {t['else']}
+
+    st0 = (start, ())
+    prev = {st0: None}
+    q = deque([st0])
+    while q:
+        b, kn = q.popleft()
+        if b in goals:
+            path, cur = [], (b, kn)
+            while cur is not None:
+                path.append(cur[0])
+                cur = prev[cur]
+            return path[::-1]
+        known = after_block(b, dict(kn))
+        only = allowed(b, known)
+        for nx in body.succ(b):
+            if nx in removed or (b, nx) in removed_edges:
+                continue
+            if only is not None and nx not in only:
+                continue
+            st = (nx, tuple(sorted(known.items())))
+            if st in prev:
+                continue
+            prev[st] = (b, kn)
+            q.append(st)
+    return None
+
+
 @RS.rule('C17.R8', 'K-GUARD', 'a token becomes a word of the syntax tree only behind a test of ITS OWN id: the id of the very token taken '
          '(operators, redirections and newlines emerging from an alias replacement are never pushed as words)')
 def r8(cx):
@@ -999,7 +1084,10 @@ def r8(cx):
                             ksw = [(sb, labels) for sb, keys, labels in switches if labels is not None and
                                    any(fs == ('id',) and Q.value_source(body, du, {'cp': {'l': l}}) is kt for l, fs in keys)]
                             good = {(sb, v) for sb, labels in ksw for v, labs in labels.items() if labs and set(labs) <= WORDLIKE}
-                            if not good or body.shortest_path(kt['to'], {pb}, removed={kb}, removed_edges=good) is not None:
+                            # every way from the peek to the take goes through a "this is a word" edge of that test - directly, or
+                            # through a bool the match materialised (`let ok = match id {..}; if !ok { break }`)
+                            if not good or (body.shortest_path(kt['to'], {pb}, removed={kb}, removed_edges=good) is not None and
+                                            _path_with_flags(F, body, du, kt['to'], {pb}, removed={kb}, removed_edges=good) is not None):
                                 continue
                             between = [cb for cb, ct in consumers if cb not in (pb, kb) and
                                        cb in body.reachable(kt['to'], removed={pb, kb}) and pb in body.reachable(ct['to'], removed={kb})]
@@ -1036,3 +1124,4 @@ def r8(cx):
 # --- explanation addendum (generated catalogue in DESIGN.md reads RS.explanation)
 RS.explanation += ' Added later: substitute_alias refuses a substitution only through the reviewed tests (R1c); alias identity is answered by Source::is_alias_for only (R4b); line breaks are skipped again in every alias-retry loop that skipped them before the first attempt (R5b).'
 RS.explanation += ' Wave 3: a production returns Rec::AliasSubstituted only on paths where no token has been consumed and kept, unless an emptiness test of the accumulator that every consumed piece is pushed into dominates the return (R7); every Token.word moved into the syntax tree is behind a switch on the id of that very token, or of the peeked token that take_token_raw / take_token_manual=>Parsed is bound to return, never take_token_auto (R8).'
+RS.explanation += ' R8 also accepts the test of the peeked id when its verdict is materialised in a bool (`let ok = match id {..}; if !ok { break }`): paths are followed with the constant last assigned to that bool.'
